@@ -41,6 +41,9 @@ var c06Data = []datum{
 	{src: `moves(a12)`, steps: []string{"a12"}},
 	{src: `moves(a * 3)`, steps: []string{"a", "a", "a"}},
 	{src: `moves(a b * 2)`, steps: []string{"a", "b", "b"}},
+	// contents that end in the characters terminators are made of
+	{src: `ascii"hi0"`, isText: true, typ: "ascii", content: `hi0\0`},
+	{src: `"hi$$"`, isText: true, content: "hi$$"},
 	// the same literal formatted under parameter sets that give different results (and two that give the same)
 	fmtDatum(`format("aaa bbb ccc ddd eee", "TEST", 70)`, "aaa bbb ccc ddd eee", 70, 0, 2),
 	fmtDatum(`format("aaa bbb ccc ddd eee", "TEST", 70, cursorOverlapWidth=10)`, "aaa bbb ccc ddd eee", 70, 10, 2),
@@ -226,7 +229,7 @@ func runC06(tier string) int {
 	r.Assume("names are <owner>_Text_<n> / <owner>_Movement_<n>, n counting the owner's new contents in source order of first appearance; content of a moves() is its written, expanded step list",
 		"identical content = identical text after terminator and format() processing and identical string type")
 	return r.Finish(r.Get("evaluations"), r.Get("nontrivial"),
-		"every file with N inline arguments distributed over 3 owners (two scripts and an inline map script, <= 3 each) x every assignment of 23 datum kinds (plain / already-terminated / formatted / other text, ascii, braille and custom types incl. typed texts whose final literal equals a plain one, one literal under six format() parameter sets of which two give the same result, 9 moves() spellings incl. lists that differ only in the length of their last run or whose run-length spelling collides with another step name) x context rotations over 13 contexts (statement, if, while, switch case, AutoVar condition, selected poryswitch case, '_' case after an unselected one, do-while condition, AutoVar leaf in a parenthesised / negated group followed by an operator, elif condition, AutoVar switch operand, second of two inline data in one command) x {no user name, a user text, a user movement named like a generated label of the first script or of the inline map script, before or after the scripts (rotating)}, every file defining constants named like the text contents and movement steps; plus long files with K pairwise different inline arguments for every K up to the bound in the coverage (5 text/movement patterns x 3 owner splits x 2 context rotations); non-trivial = some content is shared between two arguments")
+		"every file with N inline arguments distributed over 3 owners (two scripts and an inline map script, <= 3 each) x every assignment of 25 datum kinds (contents ending in terminator characters, plain / already-terminated / formatted / other text, ascii, braille and custom types incl. typed texts whose final literal equals a plain one, one literal under six format() parameter sets of which two give the same result, 9 moves() spellings incl. lists that differ only in the length of their last run or whose run-length spelling collides with another step name) x context rotations over 13 contexts (statement, if, while, switch case, AutoVar condition, selected poryswitch case, '_' case after an unselected one, do-while condition, AutoVar leaf in a parenthesised / negated group followed by an operator, elif condition, AutoVar switch operand, second of two inline data in one command) x {no user name, a user text, a user movement named like a generated label of the first script or of the inline map script, before or after the scripts (rotating)}, every file defining constants named like the text contents and movement steps; plus long files with K pairwise different inline arguments for every K up to the bound in the coverage (5 text/movement patterns x 3 owner splits x 2 context rotations); non-trivial = some content is shared between two arguments")
 }
 
 func c06Eval(r *harness.Run, data []datum, dist []int, rot, clash int) {
